@@ -28,4 +28,21 @@ SITES = [
     _site("leftIndex", "left_index"),
     _site("rightIndex", "right_index"),
 ]
+_TM = {"inner_index": "innerIdx", "outer_index": "outerIdx", "left_index": "leftIdx", "right_index": "rightIdx",
+       "self.shape[-2]": "nr", "self.shape[-1]": "na"}
+_TP = ["innerIdx", "outerIdx", "leftIdx", "rightIdx", "nr", "na"]
+_TT = {k: "Int" for k in _TP}
+def _t(name, sel, ret):
+    return dict(gen="PolarIntegrate", name=name, file=_F, func="PolarMeasurements.integrate", select=sel,
+                params_map=_TM, params=_TP, param_types=_TT, ret=ret, modes=["rat"])
+
+
+SITES += [
+    _t("radialExceeded", ("iftest", "outer_index > self.shape[-2]", 0), "Bool"),  # the "Integration limit exceeded" test
+    # the bounds handed to slice(): calls slice(None) / slice(lo, hi) in source order
+    _t("radialLo", ("callarg", "slice", 0, 1), "Int"),
+    _t("radialHi", ("callarg", "slice", 1, 0), "Int"),
+    _t("azimuthalLo", ("callarg", "slice", 0, 3), "Int"),
+    _t("azimuthalHi", ("callarg", "slice", 1, 1), "Int"),
+]
 FINGERPRINTS = {"PolarMeasurements.integrate": ("abtem/measurements.py", "PolarMeasurements.integrate")}
